@@ -14,6 +14,7 @@ use std::num::ParseIntError;
 //@include prelude/visitor_num_env.rs
 //@include prelude/chain_spec.rs
 //@item antlr/src/parser.rs :: struct LogicManager
+//@include prelude/operators_spec.rs
 //@include prelude/visitor_bin_env.rs
 //@assume parser.expr
 //@assume parser.add_term
